@@ -97,6 +97,14 @@ func runFlowCase(c *vf.Ctx, fc *flowCase) *flowResult {
 			s.PassThroughPct = 100 // skeleton 6: LINK's outputs are links to its input
 			s.PMissingFile, s.PNull = 0, 0
 		}
+		if fc.Template == 14 {
+			// skeleton 13: the flag calls are named after the values they must give
+			for _, combo := range []string{"FT", "TF", "FF", "TT"} {
+				for k, c := range combo {
+					s.Rules = append(s.Rules, pgen.Rule{JobPrefix: fmt.Sprintf("TOP/C%d%s/", k+1, combo), Bools: map[rune]string{'T': "true", 'F': "false"}[c]})
+				}
+			}
+		}
 		if fc.Template == 13 && len(s.LenChoices) == 0 {
 			s.LenChoices = []int{3} // skeleton 12: three run-time elements
 		}
